@@ -29,7 +29,7 @@ def make_case_objects(t, k, sim, rng, ids=None, resample=None, cell_perm=None, s
     interior = eq.interior_points(t, k)
     cells = [list(c) for c in t["cells"]]
     desc, info = tissue.instance_desc(pos, cells, k, sim, id_offset=ids.get("offset", 0), id_stride=ids.get("stride", 1),
-                                      interior_pts=interior, shuffle_rng=ids.get("shuffle"))
+                                      interior_pts=interior, shuffle_rng=ids.get("shuffle"), vperm_rng=ids.get("vperm"))
     if snap_seed is not None and k >= 1:
         # make some end segments EXACTLY axis aligned (dx or dy == 0.0): the first / last interior point of an interface
         # takes the junction's x or y. Decided per physical interface end, so two runs of a pair get the same geometry.
@@ -486,7 +486,8 @@ def run_spec(args):
             t = make_tissue(spec, rng)
     ids = spec.get("ids")
     if ids:
-        ids = dict(ids, shuffle=random.Random(spec.get("seed", 0) + 1) if ids.get("shuffle") else None)
+        ids = dict(ids, shuffle=random.Random(spec.get("seed", 0) + 1) if ids.get("shuffle") else None,
+                   vperm=random.Random(spec.get("seed", 0) + 2) if ids.get("vperm") else None)
     try:
         return case, _run_spec_inner(case, spec, rng, t, sim, ids)
     except PreStepRaised as exc:
@@ -513,7 +514,8 @@ def _run_spec_inner(case, spec, rng, t, sim, ids):
     evs = static_events(case, t, spec.get("k", 3), sim, rng, spec["want"], build_opts=spec.get("build"),
                         solve_opts={"skip": True} if spec.get("nosolve") else spec.get("solve"), ids=ids, resample=spec.get("resample"),
                         equilibrium=spec["tissue"]["kind"] == "equilibrium" and not spec["tissue"].get("noise"),
-                        with_pressure=spec.get("pressure", False), group=_group(spec.get("group")))
+                        with_pressure=spec.get("pressure", False), group=_group(spec.get("group")),
+                        inplace_from=make_similarity({"sim": spec["inplace_sim"]}, rng) if spec.get("inplace_sim") and not spec.get("resample") else None)
     return evs
 
 
@@ -613,7 +615,17 @@ def dynamic_events(case, spec, rng, units=(1.0, 1.0), phys_run=None):
     frames, objs = {}, {}
     for f in range(nframes):
         ids = {"offset": rng.choice([0, 5, 40]), "stride": rng.choice([1, 2, 3]), "shuffle": random.Random(rng.randrange(10 ** 9))}
+        if rng.random() < 0.6:
+            ids["vperm"] = random.Random(rng.randrange(10 ** 9))
         o = make_case_objects(frames_t[f], k, sim, rng, ids=ids)
+        if f in (tau, partner) and rng.random() < 0.4:
+            # "independent of how each frame numbers its vertices" includes the number 0 landing on a used junction
+            for _try in range(40):
+                if any(o["info"]["newid"].get(j) == 0 for j in used):
+                    break
+                ids = {"offset": 0, "stride": ids["stride"], "shuffle": random.Random(rng.randrange(10 ** 9)),
+                       "vperm": random.Random(rng.randrange(10 ** 9))}
+                o = make_case_objects(frames_t[f], k, sim, rng, ids=ids)
         objs[f] = o
         frames[f] = fs.frames.Frame(f, o["vertices"], o["edges"], o["cells"], time=stamps[f])
     evs = []
@@ -646,6 +658,9 @@ def dynamic_events(case, spec, rng, units=(1.0, 1.0), phys_run=None):
         fmx = forsys.force_matrices[tau]
         bev["fm"] = project_force_matrix(fmx, vidx, frame)
         bev["vs"] = []
+        if not spec.get("solve", {}).get("adimensional") and rng.random() < 0.3:
+            # documented workflow: ask for the frame's system velocity (adimensional evaluation) on the built matrix first
+            fmx.set_velocity_matrix(forsys.mesh, b_matrix="velocity", adimensional_velocity=True)
         b_un, _ = fmx.set_velocity_matrix(forsys.mesh, b_matrix="velocity",
                                           **({"adimensional_velocity": True} if spec.get("solve", {}).get("adimensional") else {}))
         b3 = np.asarray(b_un, dtype=float).flatten().round(3)
@@ -760,7 +775,8 @@ def pair_events(case, spec, rng):
         sim = make_similarity({"sim": rs.get("sim")}, rng) if run == 2 else simA
         ids = rs.get("ids")
         if ids:
-            ids = dict(ids, shuffle=random.Random(ids["shuffle"]) if ids.get("shuffle") else None)
+            ids = dict(ids, shuffle=random.Random(ids["shuffle"]) if ids.get("shuffle") else None,
+                       vperm=random.Random(ids["vperm"]) if ids.get("vperm") else None)
         group = _group(rs.get("group"))
         tol = tension_tolerance(t, sim)
         g = {"rot": [[fx(sim.rot[0][0]), fx(sim.rot[0][1])], [fx(sim.rot[1][0]), fx(sim.rot[1][1])]],
